@@ -48,13 +48,18 @@ func backendProp(b backendSpec, meaning string) propFunc {
 			"per-function writer state (E5): every Writer field written only while a function / entry point is being written is re-initialised in the prologue of that function's writer")
 		r.NotDecided = append(r.NotDecided, meaning)
 		c.runBackendWalk(r, b)
+		r.Clauses = append(r.Clauses, "operator tokens (E2): in every dispatcher over all binary / unary operators of the "+b.Name+" backend the infix operator tokens and function-style spellings found in each arm's string literals are allowed for that operator in the target language, and each arm that prints a literal contains an allowed token")
+		c.runOperatorTokens(r, "opsel.tokens", b.Pkg, "BinaryOperator", textBinaryTokens, textBinaryCalls)
+		c.runOperatorTokens(r, "opsel.tokens", b.Pkg, "UnaryOperator", textUnaryTokens, textUnaryCalls)
+		r.floor("optokens."+b.Pkg+".BinaryOperator", 18)
+		r.floor("optokens."+b.Pkg+".UnaryOperator", 3)
 		r.floor(b.Name+".ExpressionHandle.walkers", 2)
 		r.floor(b.Name+".Block.walkers", 3)
 	}
 }
 
 func init() {
-	notDecided := "operator/intrinsic selection, argument order, parenthesisation, byte offsets, baking order, anything data-dependent: that the emitted text computes the WGSL result"
+	notDecided := "intrinsic (math builtin) names, which operand kinds take which spelling, argument order, parenthesisation, byte offsets, baking order, anything data-dependent: that the emitted text computes the WGSL result"
 	for _, b := range backendSpecs {
 		if b.Prop != "C01" {
 			register(b.Prop, backendProp(b, notDecided))
